@@ -538,7 +538,7 @@ pub fn fold_outputs(output: OutputResources, project_dir: &Path) -> (r: Resource
 
 //@fn src/config/ir.rs transform_input#closure1 as=join_one params=`project_dir: &Path, path: &String` rty=`PathBuf` ret=r
 //@contract
-    ensures /*[C13.paths-bound]*/ r == path_join(project_dir.buf(), *path),
+    ensures /*[C13.paths-bound,C12.declared-path,C15.declared-path]*/ r == path_join(project_dir.buf(), *path),
 //@end
 impl Path {
     #[verifier::external_body]
@@ -551,9 +551,9 @@ impl Path {
     ensures
         /*[C19.ref-default,C09.ref-parse,C20.nesting]*/ r matches Ok(x) ==> dfi_step(acc.1@, resource, target_id.project_name) == Some(x.1@),
         /*[C09.ref-parse]*/ r is Err ==> dfi_step(acc.1@, resource, target_id.project_name) is None,
-        /*[C13.cmd-dir-bound]*/ r is Ok && resource is CmdStdout ==> r->Ok_0.0.files@ == acc.0.files@ && r->Ok_0.0.cmds@.len() == acc.0.cmds@.len() + 1
+        /*[C13.cmd-dir-bound,C02.declared-dir]*/ r is Ok && resource is CmdStdout ==> r->Ok_0.0.files@ == acc.0.files@ && r->Ok_0.0.cmds@.len() == acc.0.cmds@.len() + 1
             && r->Ok_0.0.cmds@.last().dir == project_dir.buf() && r->Ok_0.0.cmds@.last().cmd == resource->cmd_stdout,
-        /*[C13.paths-bound]*/ r is Ok && resource is Files ==> r->Ok_0.0.cmds@ == acc.0.cmds@ && r->Ok_0.0.files@.len() == acc.0.files@.len() + 1
+        /*[C13.paths-bound,C12.declared-path,C15.declared-path]*/ r is Ok && resource is Files ==> r->Ok_0.0.cmds@ == acc.0.cmds@ && r->Ok_0.0.files@.len() == acc.0.files@.len() + 1
             && r->Ok_0.0.files@.last().extensions == ext_norm(resource->Files_extensions)
             && r->Ok_0.0.files@.last().paths@.len() == resource->Files_paths@.len()
             && forall|i: int| #![trigger r->Ok_0.0.files@.last().paths@[i]] 0 <= i < resource->Files_paths@.len() ==> r->Ok_0.0.files@.last().paths@[i] == path_join(project_dir.buf(), resource->Files_paths@[i]),
@@ -572,16 +572,16 @@ impl Path {
 
 //@fn src/config/ir.rs transform_output#closure1 as=join_one_out params=`project_dir: &Path, path: &String` rty=`PathBuf` ret=r
 //@contract
-    ensures /*[C13.paths-bound]*/ r == path_join(project_dir.buf(), *path),
+    ensures /*[C13.paths-bound,C12.declared-path,C15.declared-path]*/ r == path_join(project_dir.buf(), *path),
 //@end
 
 //@fn src/config/ir.rs transform_output#closure0 as=output_step params=`acc0: Resources, resource: OutputResource, project_dir: &Path` rty=`Resources` ret=r
 //@closure 1 skeleton=`paths.iter().map(<CLOSURE>).collect()` becomes=`join_paths(project_dir, &paths)`
 //@contract
     ensures
-        /*[C13.cmd-dir-bound]*/ resource is CmdStdout ==> r.files@ == acc0.files@ && r.cmds@.len() == acc0.cmds@.len() + 1
+        /*[C13.cmd-dir-bound,C02.declared-dir]*/ resource is CmdStdout ==> r.files@ == acc0.files@ && r.cmds@.len() == acc0.cmds@.len() + 1
             && r.cmds@.last().dir == project_dir.buf() && r.cmds@.last().cmd == resource->cmd_stdout,
-        /*[C13.paths-bound]*/ resource is Files ==> r.cmds@ == acc0.cmds@ && r.files@.len() == acc0.files@.len() + 1
+        /*[C13.paths-bound,C12.declared-path,C15.declared-path]*/ resource is Files ==> r.cmds@ == acc0.cmds@ && r.files@.len() == acc0.files@.len() + 1
             && r.files@.last().extensions == ext_norm(resource->Files_extensions)
             && r.files@.last().paths@.len() == resource->Files_paths@.len()
             && forall|i: int| #![trigger r.files@.last().paths@[i]] 0 <= i < resource->Files_paths@.len() ==> r.files@.last().paths@[i] == path_join(project_dir.buf(), resource->Files_paths@[i]),
